@@ -36,7 +36,7 @@ RULE = ('A: per (SMTP|LMTP, PIPELINING on/off, n=1..3): every single and double 
         'ehlo(+500), helo, mail, rcpt_i, data, eod / eod_i, rset, quit x outcomes {4xx,5xx,malformed,bad code,disconnect}; '
         'STARTTLS (required or not) and AUTH stages with every single deviation; refused connection; 2 envelopes on a '
         're-used connection with every single deviation in either transaction.  B: 3 pipe relay classes x per-recipient mode x '
-        'exit status {0,1,75,255} x 7 output shapes x 1..2 recipients (+ one failing call among two).  C: HTTP status '
+        'exit status {0,1,75,255,-9 (killed by a signal)} x 7 output shapes x 1..2 recipients (+ one failing call among two).  C: HTTP status '
         '{200,204,302,400,404,500,503} x X-Smtp-Reply {absent,250,450,550,malformed} + refused, dropped, truncated.  D: resolver '
         'answers {MX list, no MX but A, nothing, error} x attempts 0..3 x recipient shapes.  Every script is non-trivial '
         'except the all-success baselines.')
@@ -262,7 +262,7 @@ def pipe_cases():
     for cls_name in ('PipeRelay', 'MaildropRelay', 'DovecotLdaRelay'):
         # per_recipient is a documented switch of PipeRelay; the two sub-classes keep their default
         for per_rcpt in ((None, True, False) if cls_name == 'PipeRelay' else (None,)):
-            for status in (0, 1, 75, 255):
+            for status in (0, 1, 75, 255, -9):
                 for oi in range(len(PIPE_OUT)):
                     for n in (1, 2):
                         yield (cls_name, per_rcpt, status, oi, n, None)
